@@ -213,4 +213,33 @@ def replacePhysRaises (dim : Nat) (physIn : List String) : Expr → Option Strin
       else if (physToParaG dim (varAtom v I) D).isNone then some "err-assertion" else none
   | _ => none
 
+/-! ### the pass on space-time forms (`dim` counts the time axis, last) -/
+
+/-- `replace_physical_derivs(e)` for a `PartialDerivExpr` node of a space-time form (vform.py:574-586) -/
+def replacePhysBfST (dim : Nat) : Expr → Expr
+  | pderiv b D ph =>
+      if dsum D == 0 then pderiv b D false
+      else if !ph then pderiv b D ph
+      else (physToParaST dim b D).getD (pderiv b D ph)
+  | e => e
+
+/-- … for a `VarRefExpr` node: the code reads `e.basisfun`, so a physical derivative of a parametric input field raises
+`AttributeError` in space-time forms (`replacePhysRaisesST`); all other cases are as in the stationary pass -/
+def replacePhysVarST (physIn : List String) : Expr → Expr
+  | varref v I D par => if dsum D == 0 then varref v I D true else varref v I D par
+  | e => e
+
+def replacePhysAllST (dim : Nat) (physIn : List String) (e : Expr) : Expr :=
+  mapLeaves (replacePhysVarST physIn) (mapLeaves (replacePhysBfST dim) e)
+
+def replacePhysRaisesST (dim : Nat) (physIn : List String) : Expr → Option String
+  | pderiv b D ph =>
+      if dsum D != 0 && ph && (physToParaST dim b D).isNone then some "err-assertion" else none
+  | varref v _ D par =>
+      if dsum D == 0 then none
+      else if physIn.contains v then (if par then some "err-RuntimeError" else none)
+      else if par then none
+      else some "err-AttributeError"
+  | _ => none
+
 end Pyiga.VForm
